@@ -11,6 +11,7 @@ import (
 	"github.com/aergoio/aergo/v2/types"
 	"github.com/aergoio/aergo/v2/types/message"
 	"github.com/aergoio/aergo/v2/zz_verif/vh"
+	"github.com/pkg/errors"
 )
 
 // Block fetcher + block processor sessions: the real structs, stepped synchronously.
@@ -61,14 +62,16 @@ type fsess struct {
 	nontriv   bool
 }
 
+// errClass: the class of an error by its cause (a wrapped error keeps its class).
 func errClass(err error) string {
+	c := errors.Cause(err)
 	switch {
-	case err == syncer.ErrAllPeerBad:
+	case c == syncer.ErrAllPeerBad:
 		return "allpeerbad"
-	case err == errStub:
+	case c == errStub:
 		return "rsperr"
 	}
-	if _, ok := err.(*syncer.ErrSyncMsg); ok {
+	if _, ok := c.(*syncer.ErrSyncMsg); ok {
 		return "invalidadd"
 	}
 	return "other(" + err.Error() + ")"
@@ -282,9 +285,15 @@ func newFsess(run *vh.Run, idx int) *fsess {
 	ancBlk := s.remote.blocks[s.anc]
 
 	s.req = &recReq{}
+	notRunning := 0
+	if rng.Intn(4) == 0 {
+		notRunning = 1 + rng.Intn(3)
+		run.Count("fetch-session:peer-list-with-non-running-peers")
+	}
 	s.req.future = func(msg interface{}) (interface{}, error) {
 		if _, ok := msg.(*message.GetPeers); ok {
-			return peersRsp(s.npeers), nil
+			// BlockFetcher.init takes the RUNNING peers only
+			return peersRspMixed(s.npeers, notRunning), nil
 		}
 		return nil, errStub
 	}
